@@ -162,3 +162,26 @@ CHECKS['C10'] = dict(
          '(so no absolute length survives a call). Embedded positive examples (period/fs, volt > 0.1, allclose(sig, 0), volt + samples) must fire on every run. '
          'Exact floating-point commutation with scale factors and the scale behaviour inside neurodsp are not decided.',
     note='Trusted: unit seeds taken from the docstrings; unit signatures of filter_signal / amp_by_time / detect_bursts_dual_threshold / compute_filter_length.')
+
+
+# ---------------------------------------------------------------------------------------------- rules added in later rounds
+_ADDED = {
+    'C01': ' Also decided: the user\'s filter-length key reaches find_extrema alone and unchanged through compute_features and Bycycle.fit (OPT-FORWARD); the peak and trough '
+           'search windows of find_extrema share their boundaries (WINDOW-TILING).',
+    'C02': ' Also decided: find_extrema / find_flank_zerox write through none of their arguments (ARGS-INTACT).',
+    'C03': ' Also decided: find_zerox (closed over its helpers) writes through none of its arguments (ARGS-INTACT).',
+    'C04': ' Also decided: the pipeline leaves the band-amplitude filter at its documented three cycles (BAND-WIRING) and the table utilities never write through a returned table (TABLE-INTACT).',
+    'C09': ' Also decided: return_samples changes no argument of any feature / label computation (RS-LATE).',
+    'C10': ' Unit signatures follow the positional normal form of neurodsp calls; rounding or quantising a V-valued term counts as an absolute level.',
+    'C13': ' Also decided: the per-epoch option list is consumed on a deep copy (COPY-FIRST) and read without pop, because deepcopy keeps list positions that name one dict as one object (EPOCH-OWN-OPTIONS).',
+    'C14': ' Also decided: constructor defaults equal compute_features defaults (DEFAULT-AGREE); BycycleGroup.recompute_edges recomputes every member and refreshes the group tables (GROUP-RECOMPUTE).',
+    'C16': ' Also decided: the object front end lowers the stored thresholds by r on every call without writing them back (OBJ-RECOMPUTE). Known finding (keyed, not repaired): on a peak-centred table '
+           'without sample_ columns the edge values pair the flanks of the other centring (CENTRE-KNOWN).',
+    'C18': ' Limits are compared in seconds (sample / fs) and offsets are rounded, not truncated (LIMIT-DEF, GRID-ROUND).',
+    'C19': ' Also decided: the value given to the unvalidated sample-wise detector is the range-checked one (CHECKED-FLOW); progress and per-epoch burst_method are validated on every axis branch (OPTION-REACH).',
+    'C20': ' Also decided: one time per sample (TIME-AXIS), rounded time-to-sample conversions (GRID-ROUND), guarded indices at the closing limit (WINDOW-END), exact per-cycle steps in step mode.',
+}
+for _k, _v in _ADDED.items():
+    CHECKS[_k]['text'] = CHECKS[_k]['text'] + _v
+for _k in CHECKS:
+    CHECKS[_k]['text'] = CHECKS[_k]['text'] + ' Every path the rules evaluate must also be free of exactly modelled Python errors (NO-PYERROR); where the anchored entry points document a default, the signature default equals it (DOC-DEFAULT).'
